@@ -330,6 +330,7 @@ std::string run_grey(reader &r)
 
 #include "exec_more.inc"
 
+#ifndef EXEC_NO_MAIN
 int main()
 {
     std::ios::sync_with_stdio(false);
@@ -353,3 +354,4 @@ int main()
     }
     return 0;
 }
+#endif
